@@ -157,6 +157,8 @@ def trace_sift(max_gni=12, max_env=80):
         yield _TR['trace']
         return
     _TR.update(trace=tr, gni=real_gni, env=real_env, max_gni=max_gni, max_env=max_env, nenv=0)
+    _traced_gni.__wrapped__ = real_gni      # keeps inspect.signature (used by get_config) intact
+    _traced_env.__wrapped__ = real_env
     S.get_next_imf, S.interp_envelope = _traced_gni, _traced_env
     try:
         yield tr
